@@ -216,6 +216,19 @@ func (o *origin) ServeHTTP(w http.ResponseWriter, r *http.Request) {
 	}
 	w.Header().Set("Content-Length", strconv.Itoa(len(body)))
 	w.WriteHeader(status)
+	if cut := num(b, "truncateAt", 0); cut > 0 && cut < len(body) {
+		// the connection dies in the middle of the body
+		rec.Mode = "truncated"
+		w.Write(body[:cut])
+		if fl, ok := w.(http.Flusher); ok {
+			fl.Flush()
+		}
+		if hj, ok := w.(http.Hijacker); ok {
+			c, _, _ := hj.Hijack()
+			c.Close() // an orderly close: the client receives everything sent so far, then an unexpected EOF
+		}
+		return
+	}
 	if slow := num(b, "slowMs", 0); slow > 0 && len(body) > 1 {
 		// the body trickles out: half now, half later
 		w.Write(body[:len(body)/2])
